@@ -30,7 +30,7 @@ MonLast ==
              lower |-> Ev.lower, called |-> ToSet(Ev.called), bad |-> ToSet(Ev.bad),
              created |-> hc, made |-> (Ev.tgt # "" /\ ~Has(pre, Ev.tgt) /\ Has(NewMeta, Ev.tgt)),
              had |-> Has(pre, Ev.k), leaf |-> ~HasChild(pre, Ev.k)]
-      [] Ev.ev = "Crash" -> [act |-> "Crash", bs |-> Ev.bs]
+      [] Ev.ev = "Crash" -> [act |-> "Crash", bs |-> Ev.bs, d |-> IF Fld("d") THEN Ev.d ELSE 0]
       [] Ev.ev = "Restart" -> [act |-> "Restart", ai |-> Ev.ai, nr |-> Ev.nr]
       [] Ev.ev \in {"Started", "StartFailed"} -> [act |-> Ev.ev, ai |-> Ev.ai, nr |-> Ev.nr, failed |-> ToSet(Ev.failed), imp |-> ToSet(Ev.imp)]
       [] OTHER -> [act |-> "Init"]
